@@ -26,6 +26,7 @@ data.  Anything else is refused (Refuse).  Meaning and proofs are in Lean.
 """
 import concurrent.futures as cf
 import os
+import re
 import sys
 
 sys.path.insert(0, os.path.dirname(os.path.abspath(__file__)))
@@ -1352,9 +1353,58 @@ def garun_code(docs):
 
 
 # ----------------------------------------------------------------------------------------------------------
+# vita::range(m, u)
+# ----------------------------------------------------------------------------------------------------------
+def range_code(docs):
+    fs = [d for d in docs if d.get("kind") == "FunctionTemplateDecl" and d.get("name") == "range"]
+    if len(fs) != 1:
+        raise Refuse("%d templates vita::range" % len(fs))
+    tps = [c.get("name") for c in kids(fs[0]) if c.get("kind") == "TemplateTypeParmDecl"]
+    fd = [c for c in kids(fs[0]) if c.get("kind") == "FunctionDecl"][0]
+    ps = [c.get("name") for c in kids(fd) if c.get("kind") == "ParmVarDecl"]
+    if len(ps) != 2:
+        raise Refuse("vita::range takes %d parameters" % len(ps))
+    ret = fd.get("type", {}).get("qualType", "").split("(")[0].strip()
+    m = re.match(r"^(?:std::)?pair<\s*([^,<>]+?)\s*,\s*([^,<>]+?)\s*>$", ret)
+
+    def tyref(txt):
+        txt = txt.strip()
+        return ("tparam", tps.index(txt)) if txt in tps else ("other", txt)
+    if m:
+        first, second = tyref(m.group(1)), tyref(m.group(2))
+    else:
+        first = second = ("other", ret)
+    ss = stmts(body_of(fd))
+    if len(ss) != 1 or ss[0].get("kind") != "ReturnStmt":
+        raise Refuse("vita::range is not a single return")
+    c = kids(ss[0])[0]
+    while c.get("kind") in WRAP:
+        c = kids(c)[0]
+    if c.get("kind") not in ("CXXUnresolvedConstructExpr", "CXXConstructExpr", "InitListExpr", "ParenListExpr",
+                             "CXXTemporaryObjectExpr"):
+        raise Refuse("vita::range returns a %s" % c.get("kind"))
+    args = [a for a in kids(c) if a.get("kind") != "CXXDefaultArgExpr"]
+    if len(args) != 2:
+        raise Refuse("vita::range builds its result from %d values" % len(args))
+
+    def src(a):
+        a = strip(a)
+        if a.get("kind") == "CallExpr":
+            f = strip(kids(a)[0])
+            nm = f.get("name") or f.get("referencedDecl", {}).get("name")
+            if nm not in ("forward", "move") or len(call_args(a)) != 1:
+                raise Refuse("vita::range: component computed by %r" % nm)
+            a = strip(call_args(a)[0])
+        if a.get("kind") == "DeclRefExpr" and a.get("referencedDecl", {}).get("name") in ps:
+            return ps.index(a["referencedDecl"]["name"])
+        raise Refuse("vita::range: a component is not one of the parameters")
+    return {"firstTy": first, "secondTy": second, "firstFrom": src(args[0]), "secondFrom": src(args[1])}
+
+
+# ----------------------------------------------------------------------------------------------------------
 # driver
 # ----------------------------------------------------------------------------------------------------------
-FILTERS = ["vita::individual", "vita::random::", "vita::ga::detail::number", "vita::i_ga::", "vita::i_de::",
+FILTERS = ["vita::range", "vita::individual", "vita::random::", "vita::ga::detail::number", "vita::i_ga::", "vita::i_de::",
            "vita::crossover", "vita::recombination::"]
 
 
@@ -1367,7 +1417,7 @@ def translate():
     if age != age_de:
         raise Refuse("individual<i_ga> and individual<i_de> keep their age differently")
     rnd = dumps["vita::random::"]
-    out = {"age": age,
+    out = {"age": age, "range": range_code(dumps["vita::range"]),
            "randInt": rand_int(rnd, "int", "i32", False, True),
            "randReal": rand_real(rnd),
            "initInt": init_code(dumps["vita::ga::detail::number"], "int"),
@@ -1399,6 +1449,12 @@ def render(o):
              "    olderNew := %s,\n    tmpTy := .%s, loadNew := %s }\n"
              % (a["field"], a["getTy"], rE(a["get"]), rE(a["inc"]), a["paramTy"], rE(a["olderCond"]),
                 rE(a["olderNew"]), a["tmpTy"], rE(a["loadNew"])))
+    r = o["range"]
+
+    def rTy(t):
+        return "(.tparam %d)" % t[1] if t[0] == "tparam" else '(.other "%s")' % t[1].replace('"', "'")
+    L.append("def range : RangeCode :=\n  { firstTy := %s, secondTy := %s, firstFrom := %d, secondFrom := %d }\n"
+             % (rTy(r["firstTy"]), rTy(r["secondTy"]), r["firstFrom"], r["secondFrom"]))
     for nm in ("randInt", "randIdx"):
         r = o[nm]
         L.append("def %s : RandInt :=\n  { ty := .%s, betA := %s, betB := %s,\n    supA := %s, supB := %s,\n    inA := %s, inB := %s }\n"
